@@ -258,8 +258,12 @@ def force(sh: Shape, ty: int, msg: Any, body: bytes, stage: list) -> str:
     if isinstance(msg, Open):
         stage[0] = 'force:str'
         str(msg)
+        repr(msg)
         for k in list(msg.capabilities):
-            str(msg.capabilities[k])
+            stage[0] = 'force:capability'
+            _touch(msg.capabilities[k], ('__str__', '__repr__', 'json', 'extensive'))
+        stage[0] = 'force:str'
+        str(msg.capabilities)
         for nm, enc in encoders():
             stage[0] = 'force:api-' + nm
             enc.open(n, 'receive', msg, header, body, neg)
@@ -270,9 +274,17 @@ def force(sh: Shape, ty: int, msg: Any, body: bytes, stage: list) -> str:
         fresh.validate(n)  # returns the (code, subcode, text) it would refuse with — not an exception
         return 'open'
     if isinstance(msg, Notification):
+        stage[0] = 'force:data'
+        msg.data
+        msg.raw_data
         stage[0] = 'force:str'
         str(msg)
-        msg.data
+        repr(msg)
+        if hasattr(type(msg), 'extensive'):
+            msg.extensive()
+        # what Peer._run / Peer._close make of a received NOTIFICATION (the log line of the reset)
+        f'notification received ({msg.code},{msg.subcode})'
+        f'peer reset, message [notification received] error[{msg}]'
         for nm, enc in encoders():
             stage[0] = 'force:api-' + nm
             enc.notification(n, 'receive', msg, header, body, neg)
@@ -285,7 +297,9 @@ def force(sh: Shape, ty: int, msg: Any, body: bytes, stage: list) -> str:
     if ty == 5:
         stage[0] = 'force:str'
         str(msg)
+        repr(msg)
         msg.extensive()
+        str(msg.afi), str(msg.safi), str(msg.reserved)
         for nm, enc in encoders():
             stage[0] = 'force:api-' + nm
             enc.refresh(n, 'receive', msg, header, body, neg)
@@ -293,8 +307,12 @@ def force(sh: Shape, ty: int, msg: Any, body: bytes, stage: list) -> str:
     if ty == 6:
         stage[0] = 'force:str'
         str(msg)
+        repr(msg)
         if hasattr(msg, 'extensive'):
             msg.extensive()
+        for nm in ('name', 'category', 'afi', 'safi', 'routerid', 'sequence', 'counter', 'data'):
+            if hasattr(msg, nm):
+                str(getattr(msg, nm))
         for nm, enc in encoders():
             stage[0] = 'force:api-' + nm
             enc.operational(n, 'receive', msg.category, msg, header, body, neg)
@@ -446,6 +464,20 @@ def read_message(sh: Shape, ty: int, body: bytes, via: str = 'read_message', mea
     sh.processes._write_queue.clear()
 
     def go() -> str:
+        try:
+            return go_inner()
+        except Notify:
+            raise
+        except Notification as received:
+            # Peer._run: `except Notification as notification: self._reset(f'notification received (c,s)', notification)`
+            # and Peer._close formats the error into the reset message (real Peer._close on the rig's peer)
+            stage[0] = 'peer-loop'
+            text = f'notification received ({received.code},{received.subcode})'
+            f'peer reset, message [{text}] error[{received}]'
+            received.data
+            return 'notification'
+
+    def go_inner() -> str:
         if via == 'read_open':
             m = sessions.run(sh.proto.read_open('127.0.0.2'))
         elif via == 'read_keepalive':
